@@ -38,12 +38,12 @@ theorem inUseOf_viewSame {w w' : World} (hs : ViewSame w w') (pl : Nat) : inUseO
 /-- **acquire / preempt, enough available**: success at once; the caller holds exactly `rem` more, the amount in use
     grows by exactly `rem` -/
 theorem poolLoop_direct {w : World} {p : Pid} {pl : Nat} {x : Pool} (hi : PoolInv w) (hp : p < w.procs.size)
-    (hx : w.pools[pl]? = some x) (rem ini : Nat) (pre : Bool) (hav : x.cap - x.inUse ≥ rem) :
+    (hx : w.pools[pl]? = some x) (rem ini : Nat) (pre : Bool) (hav : x.cap - x.inUse ≥ rem) (hrem : 0 < rem) :
     (poolLoop w p pl rem ini pre).2 = .ret sigSuccess "" ∧
     heldOf (poolLoop w p pl rem ini pre).1 pl p = heldOf w pl p + rem ∧
     inUseOf (poolLoop w p pl rem ini pre).1 pl = inUseOf w pl + rem := by
   have hv := poolView_of_get hx
-  obtain ⟨h2, st3, _, hamt, _⟩ := (((PSt.init hi hv).setInUse (x.inUse + rem)).record pl).update hi.1 hp rem
+  obtain ⟨h2, st3, _, hamt, _⟩ := (((PSt.init hi hv).setInUse (x.inUse + rem)).record pl).update hi.1 hp rem hrem
   have st4 := st3.same (signal_same _ x.guard)
   have e : poolLoop w p pl rem ini pre =
       (signal (poolUpdateRecord (recordPool (setPoolInUse w pl (x.inUse + rem)) pl) pl p rem) x.guard, .ret sigSuccess "") := by
@@ -63,7 +63,7 @@ theorem poolLoop_partial {w : World} {p : Pid} {pl : Nat} {x : Pool} (hi : PoolI
   have hv := poolView_of_get hx
   by_cases h0 : x.cap - x.inUse > 0
   · obtain ⟨h2, st3, _, hamt, _⟩ :=
-      (((PSt.init hi hv).setInUse (x.inUse + (x.cap - x.inUse))).record pl).update hi.1 hp (x.cap - x.inUse)
+      (((PSt.init hi hv).setInUse (x.inUse + (x.cap - x.inUse))).record pl).update hi.1 hp (x.cap - x.inUse) h0
     have st4 := st3.same (guardWaitEnter_same _ x.guard p (.poolAvail pl))
     refine ⟨guardWaitEnter (poolUpdateRecord (recordPool (setPoolInUse w pl (x.inUse + (x.cap - x.inUse))) pl) pl p
       (x.cap - x.inUse)) x.guard p (.poolAvail pl), ?_, ?_, ?_⟩
@@ -83,12 +83,12 @@ theorem poolLoop_partial {w : World} {p : Pid} {pl : Nat} {x : Pool} (hi : PoolI
 /-- **acquire_ok** (acquire without preemption): if one pass of the acquire loop returns at all, it returns success,
     and the caller then holds exactly `rem` more than before the pass -/
 theorem poolLoop_acquire_ok {w : World} {p : Pid} {pl : Nat} {x : Pool} (hi : PoolInv w) (hp : p < w.procs.size)
-    (hx : w.pools[pl]? = some x) (rem ini : Nat) {sig : Int} {extra : String}
+    (hx : w.pools[pl]? = some x) (rem ini : Nat) (hrem : 0 < rem) {sig : Int} {extra : String}
     (hr : (poolLoop w p pl rem ini false).2 = .ret sig extra) :
     sig = sigSuccess ∧ heldOf (poolLoop w p pl rem ini false).1 pl p = heldOf w pl p + rem ∧
       inUseOf (poolLoop w p pl rem ini false).1 pl = inUseOf w pl + rem := by
   by_cases hav : x.cap - x.inUse ≥ rem
-  · obtain ⟨h1, h2, h3⟩ := poolLoop_direct hi hp hx rem ini false hav
+  · obtain ⟨h1, h2, h3⟩ := poolLoop_direct hi hp hx rem ini false hav hrem
     rw [h1] at hr
     injection hr with hs _
     exact ⟨hs.symm, h2, h3⟩
@@ -118,7 +118,7 @@ theorem poolRollback_spec {w : World} {p : Pid} {pl : Nat} {x : Pool} (hi : Pool
     split
     · rename_i hgt
       have hk : p + 1 ∈ keys (abs x.view.holders) := mem_keys_of_amountOf_pos (q := abs x.holders) (by omega)
-      obtain ⟨h', st1, _, hamt, _⟩ := (PSt.init hi hv).setHeld hk ini
+      obtain ⟨h', st1, _, hamt, _⟩ := (PSt.init hi hv).setHeld hk ini hini
       have st4 := ((st1.setInUse (x.inUse - (heldAmount w pl p - ini))).record pl).same (signal_same _ x.guard)
       rw [st4.heldOf, st4.inUseOf, hh0, hu0]
       dsimp only
@@ -198,7 +198,7 @@ theorem poolRelease_spec {w : World} {p : Pid} {pl : Nat} {x : Pool} (hi : PoolI
         obtain ⟨s', hrun, _⟩ := HashHeap.remove_abs hok.wf (p + 1) (by simp)
         rw [hrun] at hr; cases hr
     · rename_i hne
-      obtain ⟨h', st1, _, hamt, _⟩ := (PSt.init hi hv).setHeld hk (heldAmount w pl p - n)
+      obtain ⟨h', st1, _, hamt, _⟩ := (PSt.init hi hv).setHeld hk (heldAmount w pl p - n) (by omega)
       exact ⟨h', st1, by omega⟩
   obtain ⟨h', st1, hs1⟩ := h1
   have st4 := ((st1.setInUse (x.inUse - n)).record pl).same (signal_same _ x.guard)
